@@ -25,6 +25,10 @@ def main():
         claimed = set(open(cp).read().split())
         pids = [p for p in pids if p in claimed]
     mods = {p: load(p) for p in pids}
+    # 0. sources generated for harnesses
+    for p, m in mods.items():
+        if hasattr(m, "pregenerate"):
+            m.pregenerate()
     # 1. harnesses (parallel, they dominate the wall time)
     jobs = []
     for p, m in mods.items():
